@@ -54,6 +54,28 @@ Theorem extracted_function_is_serialize : forall k v11 ver enc es,
 Proof. exact serialize_fast_eq. Qed.
 Print Assumptions extracted_function_is_serialize.
 
+(* the transcoder-backed writer with ANY representability predicate (rep_all: UTF-32, UCS-4, the alias
+   "UTF8" — encodings in which a surrogate pair goes through write(XalanUnicodeChar) and its
+   `m_bufferRemaining < 2` guard) *)
+Theorem serialize_transparent_any_encoding : forall rep v11 ver enc es,
+  serialize_other rep v11 ver enc es = payload (document_items (fam_other rep) v11 ver enc es).
+Proof. exact serialize_other_transparent. Qed.
+Print Assumptions serialize_transparent_any_encoding.
+
+Theorem extracted_other_function_is_serialize_other : forall rep v11 ver enc es,
+  serialize_other_fast rep v11 ver enc es = serialize_other rep v11 ver enc es.
+Proof. exact serialize_other_fast_eq. Qed.
+Print Assumptions extracted_other_function_is_serialize_other.
+
+(* a surrogate pair arriving when one unit is left: the buffer is flushed first, the pair stays whole *)
+Example pair_at_buffer_end_is_not_split :
+  match run kbuf_other (o_str rep_all (repeat 97 (N.to_nat (kbuf_other - 1))) ++ o_code 128512) (wr_init kbuf_other) with
+  | Ok w => buf_rev w = [56832; 55357] /\ len (out_rev w) = kbuf_other - 1
+  | _ => False
+  end.
+Proof. vm_compute. split; reflexivity. Qed.
+Print Assumptions pair_at_buffer_end_is_not_split.
+
 Example writer_transparent_hypotheses_satisfiable :
   forallb (item_sound kbuf_utf8) (u8_str [97; 233; 8364; 55357; 56832]) = true /\
   payload (u8_str [97; 233; 8364; 55357; 56832]) = Ok [97; 195; 169; 226; 130; 172; 240; 159; 152; 128].
